@@ -198,6 +198,8 @@ impl Sender {
         //
         // All we do with the lock is call `send`, so there's no chance of any state being corrupted on
         // panic. Therefore it's safe to ignore the mutex poison.
+        #[cfg(calloop_verif)]
+        crate::verif::yield_point("exec.enqueue");
         if let Err(e) = self
             .sender
             .lock()
@@ -216,6 +218,8 @@ impl Sender {
         }
 
         // If the executor is already awake, don't bother waking it up again.
+        #[cfg(calloop_verif)]
+        crate::verif::yield_point("exec.swap");
         if self.notified.swap(true, Ordering::SeqCst) {
             return;
         }
@@ -316,10 +320,14 @@ impl<T> EventSource for Executor<T> {
                 .source
                 .process_events(readiness, token, |(), &mut ()| {
                     // Set to the unnotified state.
+                    #[cfg(calloop_verif)]
+                    crate::verif::yield_point("exec.clear");
                     state.sender.notified.store(false, Ordering::SeqCst);
 
                     // Process runnables, but not too many at a time; better to move onto the next event quickly!
                     for _ in 0..1024 {
+                        #[cfg(calloop_verif)]
+                        crate::verif::yield_point("exec.dequeue");
                         let runnable = match state.incoming.try_recv() {
                             Ok(runnable) => runnable,
                             Err(_) => {
